@@ -331,6 +331,10 @@ READERS = {
     "C14": [SMT + ".get", SMT + ".exists", SMT + ".branch", SMT + "._get", SMT + ".__getitem__", SMT + ".__contains__",
             "trie.smt:calc_root"],
     "C17": [SDB + ".__getitem__", SDB + ".__contains__", SDB + ".copy"],
+    # what a read reports about a missing node must not depend on what was read before
+    "C07": [HEX + ".get", HEX + ".exists", HEX + ".traverse", HEX + ".traverse_from", HEX + "._traverse", HEX + "._traverse_from", HEX + ".root_node"],
+    # the lookups of C02 / C05 / C06 see the trie, not a memo of it
+    "C05": [HEX + ".get", HEX + ".exists", HEX + "._get"],
 }
 
 
